@@ -196,15 +196,20 @@ Qed.
 
 (** * non-vacuity *)
 Definition ex_str_net : net :=
-  mk_net ["K"] [(None, "r", [("A", 2%Z)], [("B", 1%Z); ("A", 1%Z)]); (None, "q", [("B", 1%Z)], [("Cl2", 12%Z)]);
-                (Some "x", "r", [], [("C_1", 1%Z)]); (None, "q", [("B", 1%Z)], [("Cl2", 12%Z)])] [("A", "CCO")].
+  mk_net ["K"] [(None, "r", [("A", 2%Z)], [("B", 1%Z); ("A", 1%Z)]); (None, "q", [("B", 1%Z)], [("CC(=O)O", 12%Z)]);
+                (Some "x", "r", [], [("C_1", 1%Z)]); (None, "q", [("B", 1%Z)], [("CC(=O)O", 12%Z)])] [("A", "CCO")].
 Definition ex_str_lines : list string := hypergraph_to_rxn_strings ex_str_net true true false.
 Example ex_str_domain : bool_decide (wf16 ex_str_net) = true ∧ strings_domain ex_str_net = true ∧ length (rxns_of ex_str_net) = 4%nat.
 Proof. by vm_compute. Qed.
 Example ex_str_printed :
-  ex_str_lines = ["2A >> A + B | rule=r id=r_1"; "B >> 12Cl2 | rule=q id=q_1"; sb [226; 136; 133]%N +:+ " >> C_1 | rule=r id=x";
-                  "B >> 12Cl2 | rule=q id=q_2"].
+  ex_str_lines = ["2A >> A + B | rule=r id=r_1"; "B >> 12CC(=O)O | rule=q id=q_1"; sb [226; 136; 133]%N +:+ " >> C_1 | rule=r id=x";
+                  "B >> 12CC(=O)O | rule=q id=q_2"].
 Proof. by vm_compute. Qed.
-Example ex_side_parse : bool_decide (from_str "12Cl2 + A + 3 B + 2*C_1" =
-  Some {[ "Cl2" := 12%positive; "A" := 1%positive; "B" := 3%positive; "C_1" := 2%positive ]}) = true.
+Example ex_side_parse : bool_decide (from_str "12Cl2 + A + 3 B + 2*C_1 + 2Fe(OH)3" =
+  Some {[ "Cl2" := 12%positive; "A" := 1%positive; "B" := 3%positive; "C_1" := 2%positive; "Fe(OH)3" := 2%positive ]}) = true.
+Proof. by vm_compute. Qed.
+(** SMILES-like and formula labels are in the domain; labels that do not start with a letter or contain + * | > or blanks are not *)
+Example ex_label_domain :
+  forallb valid_label ["CC(=O)O"; "C#C"; "Fe(OH)3"; "c1ccccc1"; "C[C@H](N)C(=O)O"; "H2O"; "k_1"; "A-B.C"] = true ∧
+  forallb (λ s, negb (valid_label s)) ["_x"; "2A"; "[OH-]"; "Na+"; "A B"; "A*"; "x|y"; "a>>b"; ""] = true.
 Proof. by vm_compute. Qed.
